@@ -459,6 +459,17 @@ V("s-z3-timeout-max-int", "silent", ["C14"], "inference/system_w_z3.py", "opt.se
 V("f-deadline-ms-float", "fire", ["C14"], "inference/deadline.py", "        return int(self.remaining_seconds() * 1000)\n", "        return self.remaining_seconds() * 1000\n", note="remaining_ms hands a float to z3")
 V("f-diag-bool-partition", "fire", ["C06"], "inference/consistency_diagnostics.py", 'diag["belief_base_consistent"] = base_part_std is not False', 'diag["belief_base_consistent"] = bool(base_part_std)', note="seed C06-16: the empty base has the partition []")
 V("s-diag-isinstance-list", "silent", ["C06"], "inference/consistency_diagnostics.py", 'diag["belief_base_consistent"] = base_part_std is not False', 'diag["belief_base_consistent"] = isinstance(base_part_std, list)')
+_KEPT = ("        if self._selffulfilling(query):\n", '    def _selffulfilling(self, query):\n        solver = self.__dict__.get("_quick_solver")\n        if solver is None:\n            solver = Solver(name=self.epistemic_state["smt_solver"])\n            self._quick_solver = solver\n        solver.push()\n        solver.add_assertion(query.antecedence)\n        if not solver.solve():\n            %s\n            return True\n        solver.add_assertion(Not(query.consequence))\n        selffulfilling = not solver.solve()\n        solver.pop()\n        return selffulfilling\n\n')
+for _vid, _exp, _fill in (("s-shortcut-kept-solver-balanced", "silent", "solver.pop()"), ("f-shortcut-kept-solver-leak", "fire", "pass")):
+    V(_vid, _exp, ["C01", "C02"], "inference/inference.py",
+      "        if is_unsat(query.antecedence) or is_unsat(\n            And(query.antecedence, Not(query.consequence))\n        ):\n", _KEPT[0],
+      more=(("inference/inference.py", "from pysmt.shortcuts import And, Not, is_unsat\n", "from pysmt.shortcuts import And, Not, Solver, is_unsat\n", 0),
+            ("inference/inference.py", "    def general_inference(", (_KEPT[1] % _fill) + "    def general_inference(", 0)),
+      note="the short cut on one solver kept on the operator: scope closed at every exit (silent) / left open by the early return (seed C01-15)")
+V("f-savemeta-records-format", "fire", ["C20"], PO, "        if target_fmt == \"pickle\":\n            with path.open(\"wb\") as fd:\n                pickle.dump(self._metadata, fd)\n",
+  "        self._metadata[\"metadata_format\"] = target_fmt\n        if target_fmt == \"pickle\":\n            with path.open(\"wb\") as fd:\n                pickle.dump(self._metadata, fd)\n", note="seed C20-15: the object is changed before the write that can fail")
+V("s-savemeta-local-copy", "silent", ["C20"], PO, "        if target_fmt == \"pickle\":\n            with path.open(\"wb\") as fd:\n                pickle.dump(self._metadata, fd)\n",
+  "        payload = dict(self._metadata)\n        if target_fmt == \"pickle\":\n            with path.open(\"wb\") as fd:\n                pickle.dump(payload, fd)\n", note="a local copy is written; the object is untouched")
 V("f-tpo2ranks-return-in-loop", "fire", ["C18"], PO, "            ranks[world] = rank_function(layer_num)\n    return ranks\n", "            ranks[world] = rank_function(layer_num)\n        return ranks\n")
 V("s-avg-guard-by-count", "silent", ["C14", "C06", "C13"], INF, "                \"average_query_time_ms\": total_inference_time / len(queries)\n                if queries\n                else 0,\n",
   "                \"average_query_time_ms\": total_inference_time / len(queries)\n                if len(queries)\n                else 0,\n", note="the division guarded by the count instead of the mapping")
